@@ -16,6 +16,7 @@ import (
 	"strings"
 	"sync"
 	"time"
+	"unsafe"
 
 	"github.com/cespare/xxhash"
 	"github.com/google/uuid"
@@ -41,6 +42,12 @@ type job struct {
 	Corrupt   bool `json:"corrupt,omitempty"` // instead of failing, the chunk arrives with its last byte flipped
 	Torn      int  `json:"torn"`              // after the failed run truncate the partial destination file: -1 untouched, 0, 1, or 2 = size-1
 	BigFile   int  `json:"bigFile"`           // add a synthetic shard file of this many bytes (0 = none)
+	// Then: after the interrupted run the server list changes once more (bit mask; 0 = it stays New):
+	// the recovery synchronisations run with this list, starting from whatever the interrupted move left
+	Then int `json:"then,omitempty"`
+	// Ports: the loopback ports of nodes A, B, C.  Server names contain the port and routing hashes
+	// server names, so a world is only reproduced with the ports it ran with (a replay file carries them).
+	Ports []int `json:"ports,omitempty"`
 }
 
 type viol struct {
@@ -57,6 +64,8 @@ type result struct {
 	Checks    int64  `json:"checks"`
 	Outcome   string `json:"outcome"`
 	Leftover  int    `json:"leftover"` // phases after which goroutines of stopped nodes were still alive after 5 s
+	Ports     []int  `json:"ports"`
+	FiredBig  bool   `json:"firedBig"` // the fault hit a transfer of the synthetic multi-chunk file
 }
 
 func (r *result) v(sig, format string, a ...any) {
@@ -105,6 +114,30 @@ func (w *world) start(mask int, servers []string, serve bool) (map[string]*clust
 
 // syncWorkersAlive reports whether a goroutine of some node is still inside the
 // start-up synchronisation (sending a shard file or collection records).
+// inDatabaseMapping reports whether b points into a memory-mapped database file of this process
+// (a line of /proc/self/maps whose path ends in .bbolt).  It does not touch the memory.
+func inDatabaseMapping(b []byte) (string, bool) {
+	if len(b) == 0 {
+		return "", false
+	}
+	addr := uint64(uintptr(unsafe.Pointer(&b[0])))
+	maps, err := os.ReadFile("/proc/self/maps")
+	if err != nil {
+		return "", false
+	}
+	for _, l := range strings.Split(string(maps), "\n") {
+		f := strings.Fields(l)
+		if len(f) < 6 || !strings.HasSuffix(f[5], ".bbolt") {
+			continue
+		}
+		var lo, hi uint64
+		if _, err := fmt.Sscanf(f[0], "%x-%x", &lo, &hi); err == nil && addr >= lo && addr < hi {
+			return filepath.Base(filepath.Dir(f[5])) + "/" + filepath.Base(f[5]), true
+		}
+	}
+	return "", false
+}
+
 func syncWorkersAlive() bool {
 	buf := make([]byte, 1<<20)
 	dump := string(buf[:runtime.Stack(buf, true)])
@@ -181,11 +214,19 @@ func worker(raw json.RawMessage) (json.RawMessage, error) {
 	uuid.SetRand(rand.New(rand.NewSource(j.Seed)))
 	w := &world{root: cl.TempRoot("c14"), specs: map[string]cl.NodeSpec{}, plan: models.UserPlan{Name: "p", MaxCollections: 5, MaxCollectionPointCount: 100, MaxPointSize: 1 << 16}}
 	defer os.RemoveAll(w.root)
-	ports := cl.FreePorts(3)
+	ports := j.Ports
+	if len(ports) != 3 {
+		ports = cl.FreePorts(3)
+	}
+	res.Ports = ports
 	for i, n := range names {
 		w.specs[n] = cl.NodeSpec{Name: n, Port: ports[i], Dir: cl.NodeDir(w.root, n)}
 	}
-	all := j.Old | j.New
+	all := j.Old | j.New | j.Then
+	final := j.New
+	if j.Then > 0 {
+		final = j.Then
+	}
 	// ---- 1. the old cluster stores the data where the old routing puts it ----
 	oldHosts := w.hosts(j.Old)
 	nodes, err := w.start(j.Old, oldHosts, true)
@@ -219,7 +260,7 @@ func worker(raw json.RawMessage) (json.RawMessage, error) {
 	stop(nodes)
 	// a synthetic multi-chunk shard file (never opened as a database) on the first old node
 	if j.BigFile > 0 {
-		dir := filepath.Join(w.specs[members(j.Old)[0]].Dir, cluster.USERCOLSDIR, "bigu", "bigc", "00000000-0000-4000-8000-0000000000b1")
+		dir := filepath.Join(w.specs[members(j.Old)[0]].Dir, cluster.USERCOLSDIR, "aaabig", "bigc", "00000000-0000-4000-8000-0000000000b1")
 		os.MkdirAll(dir, 0o755)
 		buf := make([]byte, j.BigFile)
 		for i := range buf {
@@ -254,8 +295,8 @@ func worker(raw json.RawMessage) (json.RawMessage, error) {
 		}
 	}
 	// ---- 2. restart with the new server list and synchronise ----
-	runSync := func(withFault bool) []string {
-		nodes, err := w.start(all, newHosts, true)
+	runSync := func(withFault bool, hosts []string) []string {
+		nodes, err := w.start(all, hosts, true)
 		if err != nil {
 			res.v("restart-failed", "%v", err)
 			return nil
@@ -277,6 +318,24 @@ func worker(raw json.RawMessage) (json.RawMessage, error) {
 		}()
 		xfer := 0
 		var hookMu sync.Mutex
+		// a record that is sent must not be a slice of the sender's database memory map: the read
+		// transaction it came from has ended by the time the request is built and sent, so a write
+		// transaction (the clean-up after another destination's transfer) may remap or reuse it
+		cluster.VerifSetNodeKeyValueHook = func(c *cluster.ClusterNode, a *cluster.RPCSetNodeKeyValueRequest) error {
+			if a.Dest == c.MyHostname {
+				return nil // receiving side: decoded values
+			}
+			for k, v := range a.KeyValues {
+				if file, in := inDatabaseMapping(v); in {
+					hookMu.Lock()
+					res.v("record-sent-from-ended-read-transaction", "node %s sends record %s to %s as a slice of its own memory-mapped %s although the read transaction that produced it has ended (bbolt: values are valid for the life of the transaction only); a concurrent clean-up write transaction can remap or overwrite it: the record arrives damaged (and the sender then deletes its copy) or the process dies with SIGSEGV while encoding", c.MyHostname, k, a.Dest, file)
+					hookMu.Unlock()
+					break
+				}
+			}
+			return nil
+		}
+		defer func() { cluster.VerifSetNodeKeyValueHook = nil }()
 		cluster.VerifSendShardHook = nil
 		if withFault {
 			cluster.VerifSendShardHook = func(a *cluster.RPCSendShardRequest) error {
@@ -291,10 +350,12 @@ func worker(raw json.RawMessage) (json.RawMessage, error) {
 							return nil // the end marker carries no data
 						}
 						res.Fired = true
+						res.FiredBig = a.UserId == "aaabig"
 						a.ChunkData[len(a.ChunkData)-1] ^= 0xff
 						return nil
 					}
 					res.Fired = true
+					res.FiredBig = a.UserId == "aaabig"
 					return fmt.Errorf("injected failure of the receive handler at chunk %d", a.ChunkIndex)
 				}
 				return nil
@@ -332,7 +393,7 @@ func worker(raw json.RawMessage) (json.RawMessage, error) {
 		return errs
 	}
 	faulty := j.FailXfer > 0
-	errs := runSync(faulty)
+	errs := runSync(faulty, newHosts)
 	if !faulty && len(errs) > 0 {
 		res.v("sync-failed-without-fault", "%v", errs)
 	}
@@ -342,18 +403,23 @@ func worker(raw json.RawMessage) (json.RawMessage, error) {
 		if j.Torn >= 0 {
 			w.tearPartial(all, origFiles, j.Torn)
 		}
+	}
+	if (faulty && res.Fired) || j.Then > 0 {
 		// the nodes start again (twice): a later synchronisation completes the move
+		// (with a changed list also when the fault did not fire: then it is a second, undisturbed move)
 		for round := 1; round <= 2; round++ {
-			if e2 := runSync(false); len(e2) > 0 && round == 2 {
+			if e2 := runSync(false, w.hosts(final)); len(e2) > 0 && round == 2 {
 				res.v("later-synchronisation-cannot-complete-the-move", "after the receive handler failed once (transfer %d, chunk %d), two further start-up synchronisations still fail: %v", j.FailXfer, j.FailChunk, e2)
 			}
 		}
 	}
 	// ---- 3. final placement ----
 	if len(res.Viols) == 0 {
-		w.checkPlacement(res, j, all, origFiles, origRecords, want)
+		jj := j
+		jj.New = final
+		w.checkPlacement(res, jj, all, origFiles, origRecords, want)
 	}
-	res.Outcome = fmt.Sprint(j.Old, j.New, res.Transfers, res.Fired, len(res.Viols))
+	res.Outcome = fmt.Sprint(j.Old, j.New, j.Then, res.Transfers, res.Fired, len(res.Viols))
 	return json.Marshal(res)
 }
 
@@ -486,7 +552,7 @@ func (w *world) checkPlacement(res *result, j job, all int, origFiles map[string
 }
 
 func master(cfg *harness.Config, rep *harness.Report) {
-	rep.Rule = "worlds = all ordered pairs of different non-empty server sets over {A,B,C} (grow, shrink, replace, disjoint) x placement seeds x Sync order (every node of old ∪ new runs its start-up Sync: all permutations, and all concurrently); data = 4 users with one collection of 2..5 points at 2 points per shard (1-3 shards each), created through the old cluster. Faults: for every world with transfers, the receive handler fails at chunk k in {0, 1 (= the end marker for single-chunk files), ...} of the t-th transfer, or a data chunk arrives with its last byte flipped (so only the checksum can tell); afterwards the partial destination file is left as is or truncated to 0 / 1 / size-1 bytes, all nodes restart and synchronise twice. Oracle: after an interrupted run every record and an intact copy of every shard file still exists somewhere; after the (recovery) synchronisation every record and shard file is on exactly its RendezvousHash owner, byte-identical, and every point is readable through every new node. distinct_nontrivial = worlds in which at least one shard had to move"
+	rep.Rule = "worlds = all ordered pairs of different non-empty server sets over {A,B,C} (grow, shrink, replace, disjoint) x placement seeds x Sync order (every node of old ∪ new runs its start-up Sync: all permutations, and all concurrently); data = 4 users with one collection of 2..5 points at 2 points per shard (1-3 shards each), created through the old cluster. Faults: for every world with transfers, the receive handler fails at chunk k in {0, 1 (= the end marker for single-chunk files), ...} of the t-th transfer, or a data chunk arrives with its last byte flipped (so only the checksum can tell); afterwards the partial destination file is left as is or truncated to 0 / 1 / size-1 bytes, all nodes restart and synchronise twice - with the same new server list, or with a server list that has changed once more (quick: back to the old list; thorough: every other list), so that the second move starts from what the interrupted one left. Oracle: after an interrupted run every record and an intact copy of every shard file still exists somewhere; after the (recovery) synchronisation every record and shard file is on exactly its RendezvousHash owner, byte-identical, and every point is readable through every new node. distinct_nontrivial = worlds in which at least one shard had to move"
 	rep.Assumptions = []string{"a sender killed mid-run is modelled by its Sync returning an error (main.go exits); a receiver killed after writing chunk k leaves the same files as a failure before chunk k+1", "RpcRetries 1 (more retries sleep 2^i s)", "real kill -9 during write(2) is replaced by the enumeration of torn destination files"}
 	p := pool.New(pool.Options{CPUsPerWorker: 2, JobTimeout: 300 * time.Second})
 	var jobs []job
@@ -535,6 +601,14 @@ func master(cfg *harness.Config, rep *harness.Report) {
 							for _, t := range torns {
 								jobs = append(jobs, job{Old: old, New: nw, Seed: seed, Order: orders[0], FailXfer: x, FailChunk: k, Torn: t})
 							}
+							// the server list changes again before the interrupted move is completed:
+							// back to the old list (quick), or to any other list (thorough)
+							for then := 1; then < 8; then++ {
+								if then == nw || (cfg.Quick() && (then != old || x > 1)) {
+									continue
+								}
+								jobs = append(jobs, job{Old: old, New: nw, Seed: seed, Order: orders[0], FailXfer: x, FailChunk: k, Torn: -1, Then: then})
+							}
 							if k == 0 {
 								// the data chunk of a (single-chunk) real shard file arrives damaged
 								jobs = append(jobs, job{Old: old, New: nw, Seed: seed, Order: orders[0], FailXfer: x, FailChunk: 0, Torn: -1, Corrupt: true})
@@ -558,6 +632,10 @@ func master(cfg *harness.Config, rep *harness.Report) {
 				for x := 1; x <= 2; x++ {
 					jobs = append(jobs, job{Old: 1, New: 2, Seed: 1, Order: "AB", FailXfer: x, FailChunk: k, Torn: -1, BigFile: sz})
 					jobs = append(jobs, job{Old: 1, New: 2, Seed: 1, Order: "AB", FailXfer: x, FailChunk: k, Torn: -1, BigFile: sz, Corrupt: true})
+					// the list goes back to [A] (or on to [C], [A B]) while B holds a partial copy
+					for _, then := range []int{1, 4, 3} {
+						jobs = append(jobs, job{Old: 1, New: 2, Seed: 1, Order: "AB", FailXfer: x, FailChunk: k, Torn: -1, BigFile: sz, Then: then})
+					}
 				}
 			}
 		}
@@ -571,6 +649,7 @@ func master(cfg *harness.Config, rep *harness.Report) {
 		panic(err)
 	}
 	fired := 0
+	firedBig := 0
 	moved := 0
 	for i, r := range results {
 		j := jobs[i]
@@ -590,6 +669,9 @@ func master(cfg *harness.Config, rep *harness.Report) {
 		if res.Fired {
 			fired++
 		}
+		if res.FiredBig {
+			firedBig++
+		}
 		if res.Transfers > 0 {
 			moved++
 		}
@@ -599,8 +681,9 @@ func master(cfg *harness.Config, rep *harness.Report) {
 			rep.NotExhaustive(fmt.Sprintf("world %+v: goroutines of a stopped node were still alive 5 s after its phase (result not used)", j))
 			continue
 		}
+		j.Ports = res.Ports
 		for _, v := range res.Viols {
-			rep.Violate(harness.Violation{Sig: v.Sig, Detail: fmt.Sprintf("[old %v -> new %v, seed %d, sync order %s, fault: transfer %d chunk %d (corrupt=%v), torn %d, big file %d] %s", members(j.Old), members(j.New), j.Seed, j.Order, j.FailXfer, j.FailChunk, j.Corrupt, j.Torn, j.BigFile, v.Detail), Replay: j})
+			rep.Violate(harness.Violation{Sig: v.Sig, Detail: fmt.Sprintf("[old %v -> new %v (then %v), seed %d, sync order %s, fault: transfer %d chunk %d (corrupt=%v), torn %d, big file %d] %s", members(j.Old), members(j.New), members(j.Then), j.Seed, j.Order, j.FailXfer, j.FailChunk, j.Corrupt, j.Torn, j.BigFile, v.Detail), Replay: j})
 		}
 		if i%97 == 0 {
 			rep.Sample(j)
@@ -609,6 +692,12 @@ func master(cfg *harness.Config, rep *harness.Report) {
 	rep.DistinctNontrivial = int64(moved)
 	rep.Set("worlds_and_fault_runs", len(jobs))
 	rep.Set("fault_runs_in_which_the_fault_fired", fired)
+	rep.Set("big_file_transfers_interrupted", firedBig)
+	if cfg.Replay == "" && firedBig == 0 {
+		// the multi-chunk fault runs exist to interrupt the big file's transfer; if none did, the
+		// enumeration has gone vacuous (e.g. the walk order changed) and must not pass for coverage
+		rep.NotExhaustive("no fault run interrupted a transfer of the multi-chunk file")
+	}
 }
 
 func perms(s string) []string {
@@ -625,6 +714,16 @@ func perms(s string) []string {
 }
 
 func tailS(s string) string {
+	// the head of a crash report names the fault; the tail alone is some idle goroutine
+	for _, mark := range []string{"fatal error:", "panic:", "unexpected fault address"} {
+		if k := strings.Index(s, mark); k >= 0 {
+			e := k + 3500
+			if e > len(s) {
+				e = len(s)
+			}
+			return s[k:e]
+		}
+	}
 	if len(s) > 2500 {
 		return s[len(s)-2500:]
 	}
